@@ -1096,7 +1096,7 @@ def extract_comments(source):
         lines = source
 
     # Only iterate through non-empty lines otherwise tokenize will stop short
-    iterable = (line for line in lines if line)
+    iterable = (line for line in lines if line.strip())
     def _readline():
         return next(iterable)
     try:
